@@ -108,7 +108,7 @@ pub fn primary_property(kind: &str, armed_panics: bool) -> &'static str {
 pub fn encode_picks(trace: &[Dec]) -> String {
     let mut s = String::new();
     let mut zeros = 0usize;
-    let kinds = ['s', 'r', 'w', 'b', 'a', 'p', 'h'];
+    let kinds = ['s', 'r', 'w', 'b', 'a', 'p', 'h', 'z'];
     for d in trace {
         if d.pick == 0 {
             zeros += 1;
@@ -319,6 +319,7 @@ fn cmd_worker(args: &[String]) {
         bump(&mut s.faults, "stale-read", st.stale_reads);
         bump(&mut s.faults, "stale-failed-cas", st.stale_cas_fail);
         bump(&mut s.faults, "spurious-cas", st.spurious_cas);
+        bump(&mut s.faults, "stalled-thread", st.stalls);
         bump(&mut s.faults, "fast-slot-refused", st.buggify[0]);
         bump(&mut s.faults, "addr-reuse", st.addr_reuse);
         bump(&mut s.faults, "thread-exit", st.thread_exits);
